@@ -145,6 +145,103 @@ pub fn forms() -> Vec<Form> {
                 ]
             },
         },
+        // nested groups in a `use` tree (seeded change C18-5: a segment pushed by one item
+        // of a group leaked into the items after it): a multi-segment path or a nested
+        // group first, in the middle and last, with a same-named item one level down
+        Form {
+            text: "mod a { fn g() -> u32 { 114 } mod b { fn f() -> u32 { 140 } fn g() -> u32 { 153 } } } use a::{b::f, g};",
+            lib: || {
+                library! {
+                    mod a {
+                        fn g() -> u32 { 114 }
+                        mod b {
+                            fn f() -> u32 { 140 }
+                            fn g() -> u32 { 153 }
+                        }
+                    }
+                    use a::{b::f, g};
+                }
+            },
+            items: || {
+                vec![
+                    named(
+                        0,
+                        K::Mod,
+                        "a",
+                        vec![
+                            named(1, K::Fn(R::U), "g", vec![]),
+                            named(2, K::Mod, "b", vec![named(3, K::Fn(R::U), "f", vec![]), named(4, K::Fn(R::U), "g", vec![])]),
+                        ],
+                    ),
+                    us(5, &["a", "b", "f"]),
+                    us(6, &["a", "g"]),
+                ]
+            },
+        },
+        Form {
+            text: "mod a { fn g() -> u32 { 114 } mod b { fn f() -> u32 { 140 } fn g() -> u32 { 153 } } } use a::{g, b::f};",
+            lib: || {
+                library! {
+                    mod a {
+                        fn g() -> u32 { 114 }
+                        mod b {
+                            fn f() -> u32 { 140 }
+                            fn g() -> u32 { 153 }
+                        }
+                    }
+                    use a::{g, b::f};
+                }
+            },
+            items: || {
+                vec![
+                    named(
+                        0,
+                        K::Mod,
+                        "a",
+                        vec![
+                            named(1, K::Fn(R::U), "g", vec![]),
+                            named(2, K::Mod, "b", vec![named(3, K::Fn(R::U), "f", vec![]), named(4, K::Fn(R::U), "g", vec![])]),
+                        ],
+                    ),
+                    us(5, &["a", "g"]),
+                    us(6, &["a", "b", "f"]),
+                ]
+            },
+        },
+        Form {
+            text: "mod a { fn g() -> u32 { 114 } const K: u32 = 127; mod b { fn f() -> u32 { 153 } fn h() -> u32 { 166 } } } use a::{K, b::{f, h}, g};",
+            lib: || {
+                library! {
+                    mod a {
+                        fn g() -> u32 { 114 }
+                        const K: u32 = 127;
+                        mod b {
+                            fn f() -> u32 { 153 }
+                            fn h() -> u32 { 166 }
+                        }
+                    }
+                    use a::{K, b::{f, h}, g};
+                }
+            },
+            items: || {
+                vec![
+                    named(
+                        0,
+                        K::Mod,
+                        "a",
+                        vec![
+                            named(1, K::Fn(R::U), "g", vec![]),
+                            named(2, K::Const(R::U), "K", vec![]),
+                            named(3, K::Mod, "b", vec![named(4, K::Fn(R::U), "f", vec![]), named(5, K::Fn(R::U), "h", vec![])]),
+                        ],
+                    ),
+                    us(6, &["a", "K"]),
+                    us(7, &["a", "b", "f"]),
+                    us(8, &["a", "b", "h"]),
+                    us(9, &["a", "g"]),
+                ]
+            },
+        },
         Form {
             text: "use Verdict::Accept;",
             lib: || library! { use Verdict::Accept; },
